@@ -107,6 +107,19 @@ Proof.
   destruct k as [| k]; [reflexivity |]. cbn [firstn map nth app]. f_equal. apply IH. simpl in Hk. lia.
 Qed.
 
+Lemma slice_drop_last (l : list (R * R)) (z : val R) :
+  py_slice (VTuple (il l ++ [z])) VNone (VInt (-1)) = VTuple (il l).
+Proof.
+  unfold py_slice. cbn [norm]. rewrite app_length. cbn [length]. unfold clampi.
+  set (n := Z.of_nat (length (il l) + 1)).
+  assert (Hn : n = (Z.of_nat (length (il l)) + 1)%Z) by (unfold n; lia).
+  assert (H1 : (-1 <? 0)%Z = true) by reflexivity. rewrite H1.
+  assert (H2 : (-1 + n <? 0)%Z = false) by (apply Z.ltb_ge; lia). rewrite H2.
+  assert (H3 : (n <? -1 + n)%Z = false) by (apply Z.ltb_ge; lia). rewrite H3.
+  cbn [Z.to_nat skipn]. replace (Z.to_nat (-1 + n - 0)) with (length (il l)) by lia.
+  rewrite firstn_app, Nat.sub_diag, firstn_all. cbn [firstn]. rewrite app_nil_r. reflexivity.
+Qed.
+
 From Ltac2 Require Ltac2.
 Ltac2 Set C17_whnf.is_blocked := fun c =>
   Ltac2.List.exist (Ltac2.Constr.equal c)
@@ -145,7 +158,7 @@ Ltac ctor_hook run s :=
           | py_slice ?v ?lo ?hi =>
               tryif is_canon2 v then
                 tryif is_canon2 hi then
-                  first [ rewrite slice_all_list by zsolve | rewrite slice_all_tuple by zsolve
+                  first [ rewrite slice_all_list by zsolve | rewrite slice_all_tuple by zsolve | rewrite slice_drop_last
                         | rewrite (py_slice_unfold v lo hi); unfold py_slice_body ]
                 else (let H := fresh "Hev" in eassert (H : hi = _) by (run; py_canon_refl2); rewrite H; clear H)
               else (let H := fresh "Hev" in eassert (H : v = _) by (run; py_canon_refl2); rewrite H; clear H)
@@ -256,4 +269,98 @@ Proof.
   change (@VList R []) with (VList (fl (map snd (firstn 0 l)))) at 1.
   rewrite (HL (length l) 0%nat) by reflexivity.
   subst loop2. pyrunN. reflexivity.
+Qed.
+
+(* an odd trailing scalar is dropped *)
+Lemma set_interleaved_odd (l : list (R * R)) (z : R) v0 v1 v2 v3 v4 v5 v6 v7 v8 v9 v10 :
+  (2 <= length l)%nat ->
+  CurveFitting_set Rops (obj11 v0 v1 v2 v3 v4 v5 v6 v7 v8 v9 v10) (VTuple (il l ++ [VFloat z]))
+  = VTuple [cf_of (map fst l) (map snd l); VNone].
+Proof.
+  intros H2. unfold obj11.
+  pyrunN.
+  match goal with |- ?f (il _) _ _ = _ => set (loop1 := f) end.
+  assert (H1 : forall l' arg, loop1 (il l') (VBool true) arg = loop1 [] (VBool true) VNone).
+  { clear. induction l' as [| [x y] l' IH]; intro arg; [reflexivity |].
+    rewrite il_cons. pyrunN. fold loop1. apply IH. }
+  rewrite H1. subst loop1. clear H1.
+  pyrunN.
+  match goal with |- context [py_range (VInt 0) ?b] =>
+    let H := fresh in eassert (H : b = _) by (pyrunN; py_canon_refl2); rewrite H; clear H end.
+  rewrite half_len, (range_idxs Rops).
+  pyrunN.
+  match goal with |- ?f (idxs _ _) _ _ = _ => set (loop2 := f) end.
+  assert (HL : forall m k i, (k + m = length l)%nat ->
+    loop2 (idxs k m) i (VObj cCurveFitting [VList (fl (map fst (firstn k l))); VList (fl (map snd (firstn k l)));
+                                            v2; v3; v4; v5; v6; v7; v8; v9; v10])
+    = loop2 [] VNone (VObj cCurveFitting [VList (fl (map fst l)); VList (fl (map snd l)); v2; v3; v4; v5; v6; v7; v8; v9; v10])).
+  { clear. induction m as [| m IH]; intros k i Hk.
+    - rewrite idxs_0. replace k with (length l) by lia. rewrite firstn_all. reflexivity.
+    - rewrite idxs_S.
+      pyrun2 pylra_fast ltac:(first [ rewrite getitem_il_even by lia | rewrite getitem_il_odd by lia ])
+             ltac:(fun s => ctor_hook ltac:(pyrunN) s).
+      fold loop2. rewrite !fl_snoc.
+      rewrite (firstn_S_map fst l k (0, 0)), (firstn_S_map snd l k (0, 0)) by lia.
+      apply IH. lia. }
+  change (@VList R []) with (VList (fl (map fst (firstn 0 l)))) at 1.
+  change (@VList R []) with (VList (fl (map snd (firstn 0 l)))) at 1.
+  rewrite (HL (length l) 0%nat) by reflexivity.
+  subst loop2. pyrunN. reflexivity.
+Qed.
+
+(* ---------------------------------------------------------------- the constructor *)
+(* __init__ empties the two lists and hands its arguments to set(); the object under construction
+   may hold anything (in the model: eleven None fields) *)
+Ltac init_via E :=
+  unfold obj11 in *; pyrunN; first [ reflexivity | cbn [py_tuple]; rewrite E; pyrunN; reflexivity ].
+
+Theorem init_two_lists (xs ys : list R) v0 v1 v2 v3 v4 v5 v6 v7 v8 v9 v10 :
+  length xs = length ys -> (2 <= length xs)%nat ->
+  CurveFitting___init__ Rops (obj11 v0 v1 v2 v3 v4 v5 v6 v7 v8 v9 v10) (VTuple [VList (fl xs); VList (fl ys)])
+  = cf_of xs ys.
+Proof.
+  intros Hl H2.
+  pose proof (set_two_lists xs ys (VList []) (VList []) v2 v3 v4 v5 v6 v7 v8 v9 v10 Hl H2) as E.
+  init_via E.
+Qed.
+
+Theorem init_two_tuples (xs ys : list R) v0 v1 v2 v3 v4 v5 v6 v7 v8 v9 v10 :
+  length xs = length ys -> (2 <= length xs)%nat ->
+  CurveFitting___init__ Rops (obj11 v0 v1 v2 v3 v4 v5 v6 v7 v8 v9 v10) (VTuple [VTuple (fl xs); VTuple (fl ys)])
+  = cf_of xs ys.
+Proof.
+  intros Hl H2.
+  pose proof (set_two_tuples xs ys (VList []) (VList []) v2 v3 v4 v5 v6 v7 v8 v9 v10 Hl H2) as E.
+  init_via E.
+Qed.
+
+Theorem init_interleaved (l : list (R * R)) v0 v1 v2 v3 v4 v5 v6 v7 v8 v9 v10 :
+  (2 <= length l)%nat ->
+  CurveFitting___init__ Rops (obj11 v0 v1 v2 v3 v4 v5 v6 v7 v8 v9 v10) (VTuple (il l))
+  = cf_of (map fst l) (map snd l).
+Proof.
+  intros H2.
+  pose proof (set_interleaved l (VList []) (VList []) v2 v3 v4 v5 v6 v7 v8 v9 v10 H2) as E.
+  init_via E.
+Qed.
+
+Theorem init_interleaved_odd (l : list (R * R)) z v0 v1 v2 v3 v4 v5 v6 v7 v8 v9 v10 :
+  (2 <= length l)%nat ->
+  CurveFitting___init__ Rops (obj11 v0 v1 v2 v3 v4 v5 v6 v7 v8 v9 v10) (VTuple (il l ++ [VFloat z]))
+  = cf_of (map fst l) (map snd l).
+Proof.
+  intros H2.
+  pose proof (set_interleaved_odd l z (VList []) (VList []) v2 v3 v4 v5 v6 v7 v8 v9 v10 H2) as E.
+  init_via E.
+Qed.
+
+Theorem init_copy (xs ys : list R) v0 v1 v2 v3 v4 v5 v6 v7 v8 v9 v10 w2 w3 w4 w5 w6 w7 w8 w9 w10 :
+  length xs = length ys -> (1 <= length xs)%nat ->
+  CurveFitting___init__ Rops (obj11 v0 v1 v2 v3 v4 v5 v6 v7 v8 v9 v10)
+    (VTuple [obj11 (VList (fl xs)) (VList (fl ys)) w2 w3 w4 w5 w6 w7 w8 w9 w10])
+  = cf_of xs ys.
+Proof.
+  intros Hl H1.
+  pose proof (set_copy xs ys (VList []) (VList []) v2 v3 v4 v5 v6 v7 v8 v9 v10 w2 w3 w4 w5 w6 w7 w8 w9 w10 Hl H1) as E.
+  init_via E.
 Qed.
